@@ -377,6 +377,40 @@ class ImplRunner:
             res = 'exc %s' % type(e).__name__
         self.finish(i, 'process %d %d %d' % (i, do_rx, do_tx), res)
 
+    def do_lim(self, op):
+        """a bare RateLimiter object driven the way _process_tx drives it, at arbitrary non-decreasing instants (time may pass between the
+        update() of a pass and each hand-over: a CAN driver that takes time)"""
+        what = op['what']
+
+        def show(rl):
+            return 'a=%d tot=%d n=%d' % (rl.allowed_bytes(), rl.bit_total, len(rl.burst_time))
+        if what == 'new':
+            rl = isotp.protocol.RateLimiter(mean_bitrate=op['bitrate'], window_size_sec=op['window'])
+            if op.get('enabled', True):
+                rl.enable()
+            else:
+                rl.disable()
+            self.lim = rl
+            self.plain('lim new %d %d %d' % (1 if rl.enabled else 0, math.floor(Fraction(rl.window_size_sec) * 10**9), math.floor(rl.window_bit_max)),
+                       show(rl))
+            return
+        rl = self.lim
+        if 't' in op:
+            CLOCK.ns = max(CLOCK.ns, op['t'])
+        if what == 'update':
+            rl.update()
+            self.plain('lim update %d' % CLOCK.ns, show(rl))
+        elif what == 'emit':
+            n = op['n']
+            if n <= rl.allowed_bytes():
+                rl.inform_byte_sent(n)
+                self.plain('lim emit %d %d' % (CLOCK.ns, n), 'emit=1 ' + show(rl))
+            else:
+                self.plain('lim emit %d %d' % (CLOCK.ns, n), 'emit=0 ' + show(rl))
+        elif what == 'reset':
+            rl.reset()
+            self.plain('lim reset', show(rl))
+
     def do_tick(self, op):
         CLOCK.ns += op['dt']
         self.plain('tick %d' % op['dt'], 'ok')
